@@ -34,7 +34,7 @@ PROPS = {
         "audit_kinds": ["map_write", "counter", "flag_write"],
         "corpus": ["C10", "D1", "D2", "D3", "D4", "D7", "D8", "D10"],
         "assumptions": COMMON_ASSUME,
-        "level_text": "Unsync: proved for every configuration, hash function, weigher and history (theorem C10_unsync: every snapshot after any operation has entry_count = |map| and weighted_size = sum of weights; by the inductive invariant InvU over all operations). Sync driven by one thread: proved for every configuration and history, any placement of sync() and any queue state (C10_sync; stronger: C10_sync_every_quiescent_snapshot, at every snapshot with an empty write queue): entry_count = |map|, weighted_size = sum of stored weights = sum of weigher(k, v) over the residents; by the invariant that every list node's info is the map's current one or awaits a queued Remove, every unadmitted map entry awaits a queued Upsert, and weighted_size is the sum of the accounted weights. The repaired defects D7b and D8 are machine-checked counterexamples under their switches. Towards concurrent schedules: the result of a maintenance run does not depend on the order of the queued write ops (C10_sync_queue_order_independent: for ANY permutation of the write queue of an invariant-satisfying state the counters come out exact; with the D10 switch on, the inverted queue that two racing threads can produce gives a wrong weighted_size: C10_sync_counterexample_D10). For all interleavings of any number of threads at the granularity of ConcS.lean the counters are exact whenever no thread holds a write and the write queue is empty, in particular right after a maintenance run (ConcS_C10_quiescent, ConcS_C10_after_maint; D10 as a two-thread interleaving: ConcS_counterexample_D10), and likewise for the finer models in which other threads' steps interleave inside a maintenance run (ConcM_C10_quiescent) and even between the individual map accesses of one queued upsert (ConcF_C10_quiescent; ConcF_racing_update_covered is the reason the dirty flag is cleared before the current entry is looked up: the seeded change that swaps the two, kept as the variant ConcF_counterexample_dirty_order, ends with an inexact weighted_size). Real threads: quiescent counters of the real-thread component (this is what found D10); the step from ConcS to the real scheduler is not proved. The detailed models treat each write of an entry's `admitted` / `dirty` flag as an atomic step that leaves the other flag alone; ConcB.lean makes that assumption a model of its own (one entry, any number of overwriting clients, one maintenance role; flags as two atomics, as one byte with atomic read-modify-write, and as one byte with load-then-store): with the first two the entry is counted exactly when its admitted flag is set, never twice, for all interleavings (ConcB_counted_once, ConcB_flags_independent, ConcB_packedAtomic_refines_separate), with the third — the seeded change C10f — a client's stale store wipes the admitted bit and the entry is counted twice (ConcB_counterexample_packed_racy).",
+        "level_text": "Unsync: proved for every configuration, hash function, weigher and history (theorem C10_unsync: every snapshot after any operation has entry_count = |map| and weighted_size = sum of weights; by the inductive invariant InvU over all operations). Sync driven by one thread: proved for every configuration and history, any placement of sync() and any queue state (C10_sync; stronger: C10_sync_every_quiescent_snapshot, at every snapshot with an empty write queue): entry_count = |map|, weighted_size = sum of stored weights = sum of weigher(k, v) over the residents; by the invariant that every list node's info is the map's current one or awaits a queued Remove, every unadmitted map entry awaits a queued Upsert, and weighted_size is the sum of the accounted weights. The repaired defects D7b and D8 are machine-checked counterexamples under their switches. Towards concurrent schedules: the result of a maintenance run does not depend on the order of the queued write ops (C10_sync_queue_order_independent: for ANY permutation of the write queue of an invariant-satisfying state the counters come out exact; with the D10 switch on, the inverted queue that two racing threads can produce gives a wrong weighted_size: C10_sync_counterexample_D10). For all interleavings of any number of threads at the granularity of ConcS.lean the counters are exact whenever no thread holds a write and the write queue is empty, in particular right after a maintenance run (ConcS_C10_quiescent, ConcS_C10_after_maint; D10 as a two-thread interleaving: ConcS_counterexample_D10), and likewise for the finer models in which other threads' steps interleave inside a maintenance run (ConcM_C10_quiescent) and even between the individual map accesses of one queued upsert (ConcF_C10_quiescent; ConcF_racing_update_covered is the reason the dirty flag is cleared before the current entry is looked up: the seeded change that swaps the two, kept as the variant ConcF_counterexample_dirty_order, ends with an inexact weighted_size). Real threads: quiescent counters of the real-thread component (this is what found D10); the step from ConcS to the real scheduler is not proved. The detailed models treat each write of an entry's `admitted` / `dirty` flag as an atomic step that leaves the other flag alone; ConcB.lean makes that assumption a model of its own (one entry, any number of overwriting clients, one maintenance role; flags as two atomics, as one byte with atomic read-modify-write, and as one byte with load-then-store): with the first two the entry is counted exactly when its admitted flag is set, never twice, for all interleavings (ConcB_counted_once, ConcB_flags_independent, ConcB_packedAtomic_refines_separate), with the third — the seeded change C10f — a client's stale store wipes the admitted bit and the entry is counted twice (ConcB_counterexample_packed_racy). The arithmetic of every counter update (which operand is added or subtracted where, on both caches, incl. the run-local sums of the purges and of the size eviction) is translated from the Rust text on every run (translator group Counters, 49 sites) and proved to be what the models compute (Lemmas/Agree/Counters.lean, 20 equations): a wrong operand or operator at one of these sites breaks a proof obligation of this check whether or not a generated history reaches it.",
         "level_note": "Theorems are about the Lean models Unsync.lean and Sync.lean; tie = white-box differential runs (counters and map compared after every op) + counter/map-write site audit. Sketch table < 2^28 slots assumed. Four machine-checked counterexamples keep the repaired defects D1-D4 visible.",
     },
     "C01": {
@@ -148,7 +148,7 @@ PROPS = {
         "audit_kinds": ["counter", "map_write"],
         "corpus": ["C04", "D3", "D4", "D8"],
         "assumptions": COMMON_ASSUME + ["sums of weights stay below 2^64 (the code's plain u64 additions)"],
-        "level_text": "Single-threaded cache, proved for every configuration, hash, weigher and history: every operation other than an update that makes a resident entry heavier keeps weighted_size (= sum of resident weights, C10) within max_capacity (C04_unsync_bound_preserved); a new key heavier than the whole capacity is never retained (C04_unsync_oversized_never_retained); excess caused by a growing update is worked off by every following operation that runs maintenance, at least one eviction batch per call, and is gone after ceil(n/batch) lookups (C04_unsync_excess_worked_off, _gone_after); and the trace oracle that judges implementation runs accepts every model trace (C04_unsync). Concurrent cache driven by one thread, proved for every configuration and history: at every snapshot |map| <= entry_count + |write queue| (C04_sync_count: the overshoot between maintenance runs is bounded by the write queue); after every maintenance run weighted_size <= max_capacity or the run removed a full eviction batch (C04_sync_after_sync: excess, which only a growing update can create, is worked off one batch per run); the trace oracle accepts every model trace (C04_sync). The overshoot bound of the property is proved for all interleavings of the many-thread model ConcS.lean: always |map| <= entry_count + |write queue| + number of threads holding a write (ConcS_C04_overshoot, tight; ConcM_C04_overshoot / ConcF_C04_overshoot with the run-local count inside a maintenance run), and after a maintenance run with no write held the weight is within capacity or a full batch was removed (ConcS_C04_weight_after_maint). The step from ConcS to real OS threads is not proved (stress).",
+        "level_text": "Single-threaded cache, proved for every configuration, hash, weigher and history: every operation other than an update that makes a resident entry heavier keeps weighted_size (= sum of resident weights, C10) within max_capacity (C04_unsync_bound_preserved); a new key heavier than the whole capacity is never retained (C04_unsync_oversized_never_retained); excess caused by a growing update is worked off by every following operation that runs maintenance, at least one eviction batch per call, and is gone after ceil(n/batch) lookups (C04_unsync_excess_worked_off, _gone_after); and the trace oracle that judges implementation runs accepts every model trace (C04_unsync). Concurrent cache driven by one thread, proved for every configuration and history: at every snapshot |map| <= entry_count + |write queue| (C04_sync_count: the overshoot between maintenance runs is bounded by the write queue); after every maintenance run weighted_size <= max_capacity or the run removed a full eviction batch (C04_sync_after_sync: excess, which only a growing update can create, is worked off one batch per run); the trace oracle accepts every model trace (C04_sync). The overshoot bound of the property is proved for all interleavings of the many-thread model ConcS.lean: always |map| <= entry_count + |write queue| + number of threads holding a write (ConcS_C04_overshoot, tight; ConcM_C04_overshoot / ConcF_C04_overshoot with the run-local count inside a maintenance run), and after a maintenance run with no write held the weight is within capacity or a full batch was removed (ConcS_C04_weight_after_maint). The step from ConcS to real OS threads is not proved (stress). The arithmetic of every counter update (which operand is added or subtracted where, on both caches, incl. the run-local sums of the purges and of the size eviction) is translated from the Rust text on every run (translator group Counters, 49 sites) and proved to be what the models compute (Lemmas/Agree/Counters.lean, 20 equations): a wrong operand or operator at one of these sites breaks a proof obligation of this check whether or not a generated history reaches it.",
         "level_note": "Theorems about Unsync.lean and Sync.lean. An earlier version of the concurrent-cache oracle (excess tolerated only above 400 residents) was false on the current code; the prover found the witness, the oracle was corrected (DESIGN.md 2.3). The oracle on implementation traces also applies C10's counter check so that a bound kept only by mis-counting is reported. Tie: differential runs incl. zero weights, weights above capacity, capacity 0.",
     },
     "C11": {
